@@ -62,6 +62,8 @@ type env struct {
 	// dropDeletes: the connection's request monitor refuses every DELETE (it never reaches the queue)
 	dropDeletes atomic.Bool
 	injectAll   func(ms []ref.Msg)
+	// observe registers an observation whose callback is cb (it gets the payload) and returns its cancel function
+	observe func(ctx context.Context, path string, cb func(body string)) (func(context.Context) error, error)
 }
 
 func newEnv(kind string, queue int, ownMIDStart ...int) *env {
@@ -189,6 +191,13 @@ func newEnv(kind string, queue int, ownMIDStart ...int) *env {
 			}
 			return o.Cancel(ctx)
 		}
+		e.observe = func(ctx context.Context, path string, cb func(body string)) (func(context.Context) error, error) {
+			o, err := cc.Observe(ctx, path, func(m *pool.Message) { b, _ := m.ReadBody(); cb(string(b)) })
+			if err != nil {
+				return nil, err
+			}
+			return func(c context.Context) error { return o.Cancel(c) }, nil
+		}
 		e.writeCon = func(ctx context.Context, path string) error {
 			req := cc.AcquireMessage(ctx)
 			defer cc.ReleaseMessage(req)
@@ -248,6 +257,13 @@ func newEnv(kind string, queue int, ownMIDStart ...int) *env {
 				return err
 			}
 			return o.Cancel(ctx)
+		}
+		e.observe = func(ctx context.Context, path string, cb func(body string)) (func(context.Context) error, error) {
+			o, err := cc.Observe(ctx, path, func(m *pool.Message) { b, _ := m.ReadBody(); cb(string(b)) })
+			if err != nil {
+				return nil, err
+			}
+			return func(c context.Context) error { return o.Cancel(c) }, nil
 		}
 		e.writeCon = func(ctx context.Context, path string) error {
 			req := cc.AcquireMessage(ctx)
@@ -454,6 +470,122 @@ func pureServer(rec *vr.Rec, c ccase, rnd *rand.Rand) {
 		}
 	}
 	rec.Count("messages_processed_in_order", int64(c.N))
+}
+
+// callbackNested: an observe callback is application code like a handler: it may issue a blocking request on the same
+// connection. While it waits, the peer - which cannot know - sends the next notification of that very observation and only
+// then the awaited response. The nested request must get its response, and no notification reaches the callback twice.
+func callbackNested(rec *vr.Rec, kind string, queue int, extra int) {
+	e := newEnv(kind, queue)
+	defer e.closef()
+	c := map[string]any{"scenario": "observe callback issues a nested request; further notifications of the same observation arrive before its response", "transport": kind, "queue": queue, "notifications_before_the_response": extra}
+	var mu sync.Mutex
+	var seen []string
+	var nestedErr error
+	nestedDone := make(chan struct{})
+	var once sync.Once
+	regDone := make(chan error, 1)
+	var cancelObs func(context.Context) error
+	go func() {
+		ctx, cancel := context.WithTimeout(context.Background(), 10*time.Second)
+		defer cancel()
+		co, err := e.observe(ctx, "/cbobs", func(body string) {
+			mu.Lock()
+			seen = append(seen, body)
+			first := len(seen) == 1
+			mu.Unlock()
+			if first {
+				nctx, nc := context.WithTimeout(context.Background(), 8*time.Second)
+				_, err := e.get(nctx, "/cbnested")
+				nc()
+				mu.Lock()
+				nestedErr = err
+				mu.Unlock()
+				once.Do(func() { close(nestedDone) })
+			}
+		})
+		cancelObs = co
+		regDone <- err
+	}()
+	find := func(pred func(m ref.Msg) bool) (ref.Msg, bool) {
+		var out ref.Msg
+		ok := sim.WaitFor(8*time.Second, func() bool {
+			for _, m := range e.sent() {
+				if pred(m) {
+					out = m
+					return true
+				}
+			}
+			return false
+		})
+		return out, ok
+	}
+	reg, ok := find(func(m ref.Msg) bool { _, has := m.GetUint(6); return m.Code == 1 && has })
+	if !ok {
+		rec.Inconclusive("callback nested: registration request not seen")
+		return
+	}
+	typ := uint8(2)
+	e.inject(ref.Msg{Type: typ, Code: 0x45, MID: reg.MID, Token: reg.Token, Opts: []ref.Opt{{ID: 6, Val: ref.Uint(10)}}, Payload: []byte("n0")})
+	nreq, ok := find(func(m ref.Msg) bool { return m.Code == 1 && pathOf(m) == "/cbnested" })
+	if !ok {
+		rec.Inconclusive("callback nested: nested request not seen")
+		return
+	}
+	want := []string{"n0"}
+	for k := 1; k <= extra; k++ {
+		e.inject(ref.Msg{Type: 1, Code: 0x45, MID: e.nextMID(), Token: reg.Token, Opts: []ref.Opt{{ID: 6, Val: ref.Uint(uint32(10 + k))}}, Payload: []byte(fmt.Sprintf("n%d", k))})
+		want = append(want, fmt.Sprintf("n%d", k))
+	}
+	e.inject(ref.Msg{Type: typ, Code: 0x45, MID: nreq.MID, Token: nreq.Token, Payload: []byte("nested-ok")})
+	rec.Count("callback_nested_cases_"+kind, 1)
+	select {
+	case <-nestedDone:
+	case <-time.After(9 * time.Second):
+	}
+	mu.Lock()
+	nerr := nestedErr
+	mu.Unlock()
+	select {
+	case <-nestedDone:
+		if nerr != nil {
+			rec.Violation("C11/"+kind+"/observe-callback/nested-request-failed", fmt.Sprintf("the request issued from the observe callback: %v (its response was delivered to the connection behind %d notification(s) of the same observation)", nerr, extra), c)
+			return
+		}
+	default:
+		rec.Violation("C11/"+kind+"/observe-callback/nested-request-stalled", "the request issued from the observe callback had not returned after 9 s", c)
+		return
+	}
+	sim.WaitFor(3*time.Second, func() bool { mu.Lock(); defer mu.Unlock(); return len(seen) >= len(want) })
+	time.Sleep(300 * time.Microsecond)
+	mu.Lock()
+	got := append([]string(nil), seen...)
+	mu.Unlock()
+	cnt := map[string]int{}
+	for _, g := range got {
+		cnt[g]++
+	}
+	// (while the callback waits, two receive goroutines may be at work, so the notifications behind it can be handled in
+	// either order and the observation's freshness rule may then, correctly, suppress the overtaken one: what is demanded is
+	// "never twice", not "each one")
+	for _, w := range want {
+		if cnt[w] > 1 {
+			rec.Violation("C11/"+kind+"/observe-callback/notification-delivered-twice", fmt.Sprintf("notification %s reached the callback %d times (callback saw %v, peer sent %v)", w, cnt[w], got, want), c)
+			return
+		}
+	}
+	rec.Count("callback_nested_requests_answered", 1)
+	select {
+	case <-regDone:
+	case <-time.After(3 * time.Second):
+	}
+	if cancelObs != nil {
+		go func() {
+			cctx, cc := context.WithTimeout(context.Background(), 200*time.Millisecond)
+			_ = cancelObs(cctx)
+			cc()
+		}()
+	}
 }
 
 // refusedThenPipelined: a message the request monitor refuses is the monitor's business; the messages that arrived with it
@@ -765,6 +897,11 @@ func TestRun(t *testing.T) {
 		kind := []string{"tcp", "udp"}[i%2]
 		refusedThenPipelined(rec, kind, []int{1, 2, 16}[i%3], rr)
 		rec.Eval(fmt.Sprintf("refused-burst|%s|%d", kind, i))
+	}
+	for i := 0; i < vr.Scale(24, 300) && rec.NViolations() <= 3; i++ {
+		kind := []string{"tcp", "udp"}[i%2]
+		callbackNested(rec, kind, []int{1, 2, 16}[i%3], 1+i%4)
+		rec.Eval(fmt.Sprintf("callback-nested|%s|%d", kind, i))
 	}
 	rec.Count("reader_hook_point_hits", hookHits.Load())
 	rec.Assume("arrival order is asserted only in pure-server workloads (no client call runs on the connection, so the reader loop is never replaced)")
